@@ -35,6 +35,9 @@ let answer ws =
     let a = tool_eval (to_coq name) (List.map to_coq args) in
     Printf.sprintf "{\"name\":\"%s\",\"kind\":%s,\"java\":%s,\"spec\":%s,\"typed\":%b,\"dom\":%b,\"fits\":%b,\"known_bad\":%b}"
       name (js a.an_kind) (js a.an_java) (js a.an_spec) a.an_typed a.an_dom a.an_fits a.an_known_bad
+  | ["bint"; small; v] ->
+    let (form, value) = tool_bint (small = "1") (to_coq v) in
+    Printf.sprintf "{\"v\":\"%s\",\"form\":%s,\"value\":%s}" v (js form) (js value)
   | ["rows"] ->
     "{" ^ Stdlib.String.concat "," (List.map (fun (n, k) -> js n ^ ":" ^ js k) tool_rows) ^ "}"
   | ["sig"; name] ->
